@@ -17,7 +17,7 @@ Local Open Scope N_scope.
 (* --- the lock counters of the anchor equal its holders in every reachable state (any number of processes, any order
        of method calls) --- *)
 Theorem C19_anchor_lock_counts_holders : forall n sched, pinv (fst (prun (pinit n) sched)).
-Proof. intros. apply prun_inv. apply pinv_init. Qed.
+Proof. exact prun_inv_init. Qed.
 Print Assumptions C19_anchor_lock_counts_holders.
 
 Theorem C19_at_most_one_writer : forall n sched p q, let s := fst (prun (pinit n) sched) in
